@@ -14,7 +14,7 @@
     [hist_mm full h] = the caller's start indices initialise min/max exactly on the first push of an accumulator
     (what the docstring of push_data prescribes) and both operands of every addition hold samples. *)
 From Coq Require Import ZArith QArith List Bool.
-Require Import SPP.Model.C10_rt SPP.Gen.Moments SPP.Model.C10_moments SPP.Proofs.C10_moments.
+Require Import SPP.Model.C10_rt SPP.Gen.Moments SPP.Model.C10_moments SPP.Proofs.C10_moments SPP.Proofs.C10_tree.
 Import ListNotations.
 Open Scope Q_scope.
 
@@ -137,7 +137,82 @@ Theorem C10_minmax_empty_side_or_refuted :
 Proof. exact minmax_empty_side_or_counterexample. Qed.
 Print Assumptions C10_minmax_empty_side_or_refuted.
 
+(** ** every history: any tree of additions, any start indices, any chunk lengths (zero-length pushes included), additions
+    with one empty side.  [hist_ok] is the hypothesis of the count / moments theorems above: counts below 2^31, the integer side
+    condition of the merge, and no addition of two accumulators that are both empty (0/0 in the mean).  Nothing is asked of the
+    start indices: the reported minimum / maximum are the minimum / maximum over all samples pushed anywhere in the tree.
+    (These three are stated outright, not as dichotomies: on a tree whose kernels tie the extrema to the start index or let an
+    empty operand contribute its zeros, Proofs/C10_tree.v stops at gen_init_by_emptiness / gen_empty_neutral_l / _r.) *)
+Theorem C10_minmax_any_tree : forall full h, hist_ok h -> data h <> [] -> inv_minmax (data h) (eval full h).
+Proof. exact hist_minmax_tree. Qed.
+Print Assumptions C10_minmax_any_tree.
+
+Theorem C10_record_any_tree : forall full h, hist_ok h -> data h <> [] ->
+  inv full (data h) (eval full h) /\ inv_minmax (data h) (eval full h).
+Proof. exact hist_record_tree. Qed.
+Print Assumptions C10_record_any_tree.
+
+Theorem C10_minmax_tree_independent : forall full h1 h2, hist_ok h1 -> hist_ok h2 -> data h1 = data h2 -> data h1 <> [] ->
+  s_min (eval full h1) == s_min (eval full h2) /\ s_max (eval full h1) == s_max (eval full h2).
+Proof. exact hist_minmax_tree_independent. Qed.
+Print Assumptions C10_minmax_tree_independent.
+
+(** ** std = np.sqrt(var).  The square root is not rational: [is_std r s n] says that r is a non-negative number whose square
+    is the variance the record yields.  For every history the variance is non-negative (the square root is defined: std is never
+    NaN), any such r squares to the two-pass variance, it is unique, and it is 0 for a channel without spread.
+    Float caveat: ChannelStats.std is the float32 rounding of that root of the float32 variance; what rounding adds is bounded
+    by the oracle (std_box in props/c10.py), not proved; existence of r in Q is not claimed. *)
+Theorem C10_std_any_history : forall full h, hist_ok h -> data h <> [] ->
+  let n := zlen (data h) in let s := eval full h in let v := csum2 (qmean (data h)) (data h) / z2q n in
+  0 <= var_q s n /\
+  (forall r, is_std r s n -> 0 <= r /\ r * r == v) /\
+  (forall r r', is_std r s n -> is_std r' s n -> r == r') /\
+  (csum2 (qmean (data h)) (data h) == 0 -> forall r, is_std r s n -> r == 0).
+Proof. exact hist_std. Qed.
+Print Assumptions C10_std_any_history.
+
 (** ** non-vacuity *)
+(** a tree with a zero-length first push at index 3, first samples at index 7, a zero-length push afterwards, an empty left
+    operand, and an accumulator that only ever received a zero-length push as right operand *)
+Definition ex_t : hist :=
+  HAdd (HAdd HNew (HPush 9 [] (HPush 7 [5; 6] (HPush 3 [] HNew)))) (HAdd (HPush 4 [-2 # 1] HNew) (HPush 0 [] HNew)).
+
+Example C10_example_tree :
+  hist_ok ex_t /\ data ex_t = [5; 6; -2 # 1] /\ data ex_t <> [] /\
+  s_min (eval true ex_t) == -2 # 1 /\ s_max (eval true ex_t) == 6 /\ s_min (eval false ex_t) == -2 # 1 /\ s_max (eval false ex_t) == 6.
+Proof.
+  split; [|split; [reflexivity|split; [discriminate|vm_compute; repeat split; reflexivity]]].
+  cbn [ex_t hist_ok data app].
+  assert (M : forall a b, (0 <= a)%Z -> (0 <= b)%Z -> (a + b < 2 ^ 21)%Z -> merge_counts_ok a b) by exact merge_counts_ok_small.
+  repeat match goal with
+  | |- _ /\ _ => split
+  | |- True => exact I
+  | |- (_ < _)%Z => vm_compute; reflexivity
+  | |- merge_counts_ok _ _ => apply M; vm_compute; try reflexivity; discriminate
+  end.
+  - right; discriminate.
+  - left; discriminate.
+  - left; discriminate.
+Qed.
+
+(** samples 1 (pushed at index 5) and 3 (pushed at index 2) in two accumulators: variance 1, std 1 *)
+Definition ex_s : hist := HAdd (HPush 5 [1] HNew) (HPush 2 [3] HNew).
+Example C10_example_std :
+  hist_ok ex_s /\ data ex_s <> [] /\ is_std 1 (eval true ex_s) (zlen (data ex_s)) /\ is_std_b 1 (eval false ex_s) 2 = true /\
+  csum2 (qmean (data ex_s)) (data ex_s) / z2q 2 == 1.
+Proof.
+  split; [|split; [discriminate|split; [split; vm_compute; [discriminate|reflexivity]|split; vm_compute; reflexivity]]].
+  cbn [ex_s hist_ok data app].
+  assert (M : forall a b, (0 <= a)%Z -> (0 <= b)%Z -> (a + b < 2 ^ 21)%Z -> merge_counts_ok a b) by exact merge_counts_ok_small.
+  repeat match goal with
+  | |- _ /\ _ => split
+  | |- True => exact I
+  | |- (_ < _)%Z => vm_compute; reflexivity
+  | |- merge_counts_ok _ _ => apply M; vm_compute; try reflexivity; discriminate
+  end.
+  left; discriminate.
+Qed.
+
 Definition ex_h : hist :=
   HAdd (HPush 3 [4] (HPush 0 [1; 2] HNew)) (HPush 1 [9 # 2] (HPush 0 [7; -8 # 1] HNew)).
 
